@@ -61,6 +61,7 @@ type Engine struct {
 
 	ufuncs  map[string]string // uninterpreted function name -> declaration
 	fmtOf   [][2]string
+	fmtDefs []string
 	constMaps map[*ssa.Global][]constKV
 	zarrs map[string][2]string
 	specDir string
